@@ -5,7 +5,9 @@
    statements of Spec.v:  Blocks P src out  =  out consists of one block per element of src, in order,
    element i of block k at index offs k + i and related to the source element by P k. *)
 From Coq Require Import ZArith List Bool Arith Lia.
-From PV Require Import Base.NpSearch C12.Model C12.Spec C12.Proofs C12.Proofs2 C12.Proofs3 C12.Proofs4 C12.Proofs5.
+From Coq Require Import Sorted Permutation.
+From PV Require Import Base.NpSearch C12.Model C12.Spec C12.Proofs C12.Proofs2 C12.Proofs3 C12.Proofs4 C12.Proofs5 C12.Link.
+From PV Require C11.Model C11.Spec C11.Proofs.
 Import ListNotations.
 Open Scope Z_scope.
 
@@ -172,6 +174,75 @@ Theorem C12_checker_sound_tables : forall off ts out, table_shift_b off ts out =
 Proof. exact table_shift_b_sound. Qed.
 Print Assumptions C12_checker_sound_tables.
 
+(* ================= cross-property link with C11 (the spike side of the same merge) =================
+   sps = the probes as PV.C11.Model reads them (spike times, amplitudes, spike templates, spike clusters, and the number
+   of rows of templates.npy, p_ntmpl); ps = the same probes as this model reads them.  SameDirs sps ps = as many probes,
+   and p_ntmpl of probe k = number of templates of probe k here.  C11.Spec.wf = every probe has a spike, equal-length
+   per-spike arrays, ids >= 0 and every spike names a template < p_ntmpl. *)
+
+(* the two offsets are one number: what write_spike_clusters adds to the spike templates of probe k is the row of the
+   merged templates.npy / template tables where write_templates / write_template_data start probe k's block *)
+Theorem C12_template_offsets_agree : forall (A R B V F : Type) (sps : list (C11.Model.probe B V F)) (ps : list (probe A R)) k,
+  SameDirs sps ps ->
+  C11.Spec.toff_spec sps k = Z.of_nat (offs (map (fun p => length (p_tmpl p)) ps) k).
+Proof. exact (@toff_link). Qed.
+Print Assumptions C12_template_offsets_agree.
+
+(* for every number of probes: both sides of the merge are defined, the merged spikes are (Payload) the input spikes M
+   in (time, probe, index) order, and for every merged spike i = M[i], coming from probe k = t_probe with original
+   template t = t_tmpl: row (merged spike_templates[i]) of the merged templates array exists and carries template t of
+   probe k, every sample row on probe k's channel block and zero on all other channels (SpikeRows, Link.v) *)
+Theorem C12_spike_template_rows : forall (A R B V F : Type) (zero : A) (unit : Z)
+    (sps : list (C11.Model.probe B V F)) (ps : list (probe A R)) m,
+  C11.Spec.wf sps -> SameDirs sps ps -> merge_side zero unit ps = Some m ->
+  (forall p, In p ps -> RectT (p_tmpl p)) ->
+  exists sm M, C11.Model.merge sps = Some sm /\ C11.Spec.Payload sps sm M /\
+    Permutation M (C11.Spec.tagged_concat sps) /\ StronglySorted (@C11.Spec.lt3 B) M /\
+    length (C11.Model.m_tmpl sm) = length M /\
+    forall i s, nth_error M i = Some s ->
+      exists id p tm om,
+        nth_error (C11.Model.m_tmpl sm) i = Some id /\ 0 <= id /\ 0 <= C11.Spec.t_tmpl s /\
+        nth_error ps (C11.Spec.t_probe s) = Some p /\ nth_error (p_tmpl p) (Z.to_nat (C11.Spec.t_tmpl s)) = Some tm /\
+        nth_error (m_tmpl m) (Z.to_nat id) = Some om /\
+        Forall2 (BlockRow zero (nsum (widths (map p_tmpl ps))) (offs (widths (map p_tmpl ps)) (C11.Spec.t_probe s))) tm om.
+Proof.
+  intros A R B V F zero unit sps ps m Hwf E Hm Hr.
+  destruct (link_templates zero unit sps ps m Hwf E Hm Hr) as (sm & M & H1 & H2 & H3 & H4 & HL & H5).
+  exists sm, M. repeat (split; [assumption|]). intros i s Hs.
+  destruct (H5 i s Hs) as (id & Tk & tm & om & G1 & G2 & G3 & G4 & G5 & G6 & G7).
+  destruct (nth_error ps (C11.Spec.t_probe s)) as [p|] eqn:Ep;
+    [|apply nth_error_None in Ep; assert (nth_error (map p_tmpl ps) (C11.Spec.t_probe s) = None)
+        by (apply nth_error_None; rewrite map_length; exact Ep); congruence].
+  rewrite (map_nth_error p_tmpl _ _ Ep) in G4. injection G4 as <-.
+  exists id, p, tm, om. repeat (split; [first [assumption|reflexivity]|]). exact G7.
+Qed.
+Print Assumptions C12_spike_template_rows.
+
+(* likewise the merged template_feature_ind (whose entries are template ids) uses the same numbering: row (merged
+   spike_templates[i]) of the merged table is the row of the spike's own template in its own probe, each entry v
+   renumbered to v + toff_k -- exactly the label C11_payload gives to a spike of probe k whose template is v *)
+Theorem C12_spike_template_tables : forall (A R B V F : Type) (zero : A) (unit : Z)
+    (sps : list (C11.Model.probe B V F)) (ps : list (probe A R)) m,
+  C11.Spec.wf sps -> SameDirs sps ps -> merge_side zero unit ps = Some m ->
+  (forall p, In p ps -> length (p_tf p) = length (p_tmpl p)) ->
+  NoWrap (coffZ ps) (map p_pc ps) -> NoWrap (toffZ ps) (map p_tf ps) ->
+  exists sm M, C11.Model.merge sps = Some sm /\ C11.Spec.Payload sps sm M /\
+    Permutation M (C11.Spec.tagged_concat sps) /\ StronglySorted (@C11.Spec.lt3 B) M /\
+    SpikeTable (C11.Spec.toff_spec sps) (map p_tf ps) M (C11.Model.m_tmpl sm) (m_tf m).
+Proof. exact (@link_template_tables). Qed.
+Print Assumptions C12_spike_template_tables.
+
+(* the boolean checkers that Corr.v (of C12 and of C11) runs on phylib's merged spike_templates.npy against its merged
+   templates.npy / template_feature_ind.npy imply the two statements *)
+Theorem C12_checker_sound_spike_rows : forall (A B : Type) (zero : A) (eqb : A -> A -> bool),
+  (forall x y, eqb x y = true -> x = y) ->
+  (forall Ts (M : list (C11.Spec.tagged B)) ids out, spike_rows_b zero eqb Ts M ids out = true -> SpikeRows zero Ts M ids out) /\
+  (forall off tfs (M : list (C11.Spec.tagged B)) ids out, spike_table_b off tfs M ids out = true -> SpikeTable off tfs M ids out).
+Proof.
+  intros A B zero eqb H. split; [intros; now apply (spike_rows_b_sound zero eqb H)|intros; now apply spike_table_b_sound].
+Qed.
+Print Assumptions C12_checker_sound_spike_rows.
+
 (* ---- non-vacuity: three probes of unequal sizes (2, 3, 1 channels; 1, 2, 1 templates), where a
    previous-probe offset and a cumulative offset differ ---- *)
 Definition ex_ps : list (probe Z Z) :=
@@ -220,3 +291,27 @@ Example C12_ex_checkers :
   apart_b [2; 3; 1]%nat [mkxy 0 0; mkxy 0 80; mkxy 4 0; mkxy 68 0; mkxy 4 80; mkxy 132 40] = true /\
   apart_b [2; 2]%nat [mkxy 0 0; mkxy 0 80; mkxy 0 0; mkxy 0 80] = false.
 Proof. vm_compute. repeat split; reflexivity. Qed.
+
+(* ---- non-vacuity of the link: the spike side of ex_ps.  Probe 1 has 2 templates and its spikes use only template 0
+   (a NON-LAST probe with an unused trailing template); probe 2's spike names its template 0.  With the template
+   COUNTS as offsets (0, 1, 3) probe 2's spike is labelled 3 = the row of its waveform; with the pre-repair offsets
+   (running max + 1: 0, 1, 2) it was labelled 2 = the unused template of probe 1, which the checker rejects. ---- *)
+Definition ex_sps : list (C11.Model.probe Z Z Z) :=
+  [ C11.Model.mkprobe [0; 5] [1; 1] [0; 0] [0; 0] 1 [];
+    C11.Model.mkprobe [1; 5] [1; 1] [0; 0] [0; 0] 2 [];
+    C11.Model.mkprobe [2] [1] [0] [0] 1 [] ].
+Example C12_ex_link :
+  C11.Spec.wf ex_sps /\ SameDirs ex_sps ex_ps /\
+  option_map (@C11.Model.m_tmpl Z Z Z) (C11.Model.merge ex_sps) = Some [0; 1; 3; 0; 1] /\
+  option_map (@C11.Model.m_toffs Z Z Z) (C11.Model.merge ex_sps) = Some [0; 1; 3] /\
+  (forall m, merge_side 0 4 ex_ps = Some m ->
+     spike_rows_b 0 Z.eqb (map p_tmpl ex_ps) (C11.Proofs.sorted_tagged (C11.Spec.tagged_concat ex_sps)) [0; 1; 3; 0; 1] (m_tmpl m) = true /\
+     spike_rows_b 0 Z.eqb (map p_tmpl ex_ps) (C11.Proofs.sorted_tagged (C11.Spec.tagged_concat ex_sps)) [0; 1; 2; 0; 1] (m_tmpl m) = false /\
+     spike_table_b (C11.Spec.toff_spec ex_sps) (map p_tf ex_ps) (C11.Proofs.sorted_tagged (C11.Spec.tagged_concat ex_sps))
+                   [0; 1; 3; 0; 1] (m_tf m) = true).
+Proof.
+  split; [|split; [reflexivity|split; [vm_compute; reflexivity|split; [vm_compute; reflexivity|]]]].
+  - split; [discriminate|]. repeat constructor; cbn; try discriminate; intros c H;
+      repeat (destruct H as [<-|H]; [lia|]); contradiction.
+  - intros m Hm. vm_compute in Hm. injection Hm as <-. vm_compute. repeat split; reflexivity.
+Qed.
